@@ -127,8 +127,9 @@ def persistentKeepsOnShutdownErr : Bool :=
 /-- `refCountDone.OnDone`: EVERY part's error is appended, the wrapped `Done` fires once, with the joined error, when the last part ends;
 `multiDone.OnDone`: every request of a merged batch receives the outcome -/
 def doneJoinsAll : Bool :=
-  refCountOnDone == ["mu.Lock", "defer", "mu.Unlock", "set:err=multierr.Append()", "multierr.Append", "set:refCount--", "if:refCount==0", "done.OnDone"] &&
-  multiOnDone == ["range:mdc", "d.OnDone"]
+  refCountOnDone == ["rcd.mu.Lock()", "defer", "rcd.mu.Unlock()", "set:rcd.err=multierr.Append(rcd.err,err)", "multierr.Append(rcd.err,err)",
+                     "set:rcd.refCount--", "if:rcd.refCount==0", "rcd.done.OnDone(rcd.err)"] &&
+  multiOnDone == ["range:mdc", "d.OnDone(err)"]
 
 /-- disabled batcher: the consumer itself runs the export chain and then calls `OnDone` -/
 def disabledSync : Bool := disabledConsume == ["done.OnDone", "consumeFunc"]
